@@ -25,6 +25,10 @@ def jobs(tier):
             for op in ('swap', 'assign', 'compare'): add(op, L, M)
         for M in (0, 1, 2):
             add('startsends', L, M)
+        for M in (1, 2):
+            for K in sorted(set(k for k in (0, L - 1, L) if k >= 0)): add('lastindexofstr', L, M, K)      # added after seeded change C17-m2
+        for M in sorted(set(k for k in (0, 1, L) if k >= 0)):
+            for K in (0, 1, 2, 0xffffffff): add('replacechar', L, M, K)                                  # added after seeded change C17-m3
         for K in sorted(set(k for k in (0, 1, L - 1, L, L + 1, CAP, CAP + 1) if k >= 0)):
             for op in ('truncate', 'truncatechars'): add(op, L, 0, K)
         for K in sorted(set(k for k in (0, 1, L - 1, L) if 0 <= k <= L)):
